@@ -422,6 +422,9 @@ func runLin(t vkit.TB, c *linCase, reps int) (overlaps, released int) {
 			DescribeOperation: describe,
 		}
 		r := &vkit.Runner{Blocking: blocking, Exec: exec(dq)}
+		r.OnHang = func(stacks string) {
+			vkit.Fail(t, tLin, "C06:hang", *c, "the program makes no progress although every context was cancelled: calls are stuck inside the library (repetition %d of %d)\n%s", i, reps, stacks)
+		}
 		h, rel := r.Run(c.Prog)
 		if rel {
 			released++
@@ -513,10 +516,27 @@ func TestDequeLinearizable(t *testing.T) {
 			ng--
 			ops = []string{"WaitPushFront", "WaitPushBack", "WaitPushBack", "Len"}
 		}
+		// "push then close": consumers are parked on the empty deque; one
+		// thread pushes and closes at once
+		pushThenClose := !contention && !closeAfterFree && rapid.IntRange(0, 7).Draw(t, "pushThenClose") == 0
+		if pushThenClose {
+			y := func() int { return rapid.IntRange(0, 2).Draw(t, "yield") }
+			next++
+			c.Prog.Threads = append(c.Prog.Threads, []vkit.Step{
+				{Op: "Len", Ctx: -1, Yield: 4},
+				{Op: rapid.SampledFrom([]string{"PushBack", "PushFront"}).Draw(t, "push"), V: next, Ctx: -1, Yield: rapid.IntRange(0, 8).Draw(t, "settle")},
+				{Op: "Close", Ctx: -1, Yield: y()},
+				{Op: "Len", Ctx: -1, Yield: y()},
+				{Op: "PopFront", Ctx: -1, Yield: y()},
+			})
+			closes = 1
+			ng--
+			ops = []string{"WaitFront", "WaitBack", "WaitFront", "Len"}
+		}
 		for g := 0; g < ng; g++ {
 			n := rapid.IntRange(1, 7).Draw(t, "nops")
-			if closeAfterFree {
-				n = rapid.IntRange(1, 2).Draw(t, "nopsParked")
+			if closeAfterFree || pushThenClose {
+				n = rapid.IntRange(1, 2).Draw(t, "nopsParkedConsumers")
 			}
 			var th []vkit.Step
 			for i := 0; i < n; i++ {
